@@ -10,7 +10,7 @@ RULE = ("for each verb with a documented set of optional clauses (framer, frame,
         "clauses are built (exhaustive per command, <= 120) and the structural dump of the built house (or the error class) of "
         "every permutation is compared with the first; distinct = distinct (verb, clause set with values); non-trivial = at "
         "least 2 permutations built successfully")
-RULE = __import__("vf.core", fromlist=["rule_add"]).rule_add(RULE, '`do` with relation forms of `via`; needs with a further condition joined by `and` behind the clauses')
+RULE = __import__("vf.core", fromlist=["rule_add"]).rule_add(RULE, '`do` with relation forms of `via`; needs with a further condition joined by `and` behind the clauses; `per` data that carry an inode beside `via`')
 META = {"engine": "A floscript (build only)", "technique": "metamorphic runtime check: structural dump equality across clause permutations",
         "level_text": "Every permutation of the optional clauses of each generated command is really built by ioflo's Builder; the dumps "
                       "(framers, frames, acts per context with actor kind, name, inits, ioinits, parms, context; loggers, logs, servers) "
